@@ -25,6 +25,16 @@ def _geo(c):
     net = GeoNetwork(g, adjacency=A, node_weight_type="surface", silence_level=3)
     o["A"] = enc.ints(A)
     o["w4"] = enc.arr(net.node_weights, 10**4)
+    o["tot4"] = enc.num(net.total_node_weight, 10**4)
+    o["mean4"] = enc.num(net.mean_node_weight, 10**4)
+    irr = GeoNetwork(g, adjacency=A, node_weight_type="irrigation", silence_level=3)
+    o["irr4"] = enc.arr(irr.node_weights, 10**4)
+    o["irrtot4"] = enc.num(irr.total_node_weight, 10**4)
+    o["irrmean4"] = enc.num(irr.mean_node_weight, 10**4)
+    sw = GeoNetwork(g, adjacency=A, node_weight_type=None, silence_level=3)
+    sw.set_node_weight_type("irrigation")
+    o["sw4"] = enc.arr(sw.node_weights, 10**4)
+    o["swtot4"] = enc.num(sw.total_node_weight, 10**4)
     o["awc6"] = enc.arr(net.area_weighted_connectivity())
     o["maxld6"] = enc.arr(net.max_link_distance())
     # the grid's distances as they are served after the network has been analysed
